@@ -143,6 +143,10 @@ def jobs(tier, seed=0):
     res.append(dict(cc="ECU", preset="ms_worst_T60", options=dict(copy.deepcopy(P["ms_worst"]), MINIMUM_PERCENT_FED_BEFORE_NONHUMAN_CONSUMPTION_ALLOWED=60)))
     # ... and a run that follows, in the same process, a run of the same country, strategy and horizon with other grass and crops
     res.append(dict(cc="USA", preset="nw_crops_die_after_nw", options=copy.deepcopy(V["nw_crops_die"]), prelude=copy.deepcopy(P["net_nuclear_winter"])))
+    # output options are not inputs: the per-country figures switched on, and a world run that is given no title
+    res.append(dict(cc="DJI", preset="nw_figures_on", options=copy.deepcopy(P["net_nuclear_winter"]), figures=True))
+    res.append(dict(cc="NZL", preset="res_figures_on", options=copy.deepcopy(P["net_nuclear_resilient"]), figures=True))
+    res.append(dict(cc="WOR", preset="nw_untitled", options=to_global(copy.deepcopy(P["net_nuclear_winter"])), untitled=True))
     for cc, name in ([("DJI", "net_baseline"), ("LSO", "net_nuclear_winter")] if tier == "quick" else
                      [("DJI", "net_baseline"), ("LSO", "net_nuclear_winter"), ("NZL", "ms_worst"), ("EST", "net_nuclear_resilient")]):
         main = dict(copy.deepcopy(P[name]), NMONTHS=60)
